@@ -391,3 +391,128 @@ func H13c_ack_during_wait() {
 	vrtCheckQueue(aq, abs)
 	vrtReach("C13.ack_during_wait")
 }
+
+// H13p_history: the property through the queue's exported surface only (Wait / Ack / Acked and the
+// exported fields of the entries handed back) - nothing here names an unexported field of the ring,
+// so this harness keeps compiling (and deciding) when the representation is refactored; the step
+// lemmas above, which build arbitrary ring states, are then skipped (REDUCED) instead of failing.
+// Histories of N13ops operations from a queue of ring size 2 (so the third in-flight request grows
+// the ring, and releases make it wrap): register a PUBLISH q1/q2 or a SUBSCRIBE, acknowledge any
+// identifier with any of the six acknowledgement types, collect; then everything still in flight is
+// driven to its final acknowledgement in reverse order and collected. Every collect must hand back
+// exactly the model's terminal prefix, in order, with the original request and acknowledgement bytes.
+func vrtAckFor(typ byte, id uint16) (message.Message, []byte) {
+	var raw []byte
+	if typ == 9 {
+		raw = []byte{typ << 4, 3, byte(id >> 8), byte(id), 1}
+	} else {
+		fl := byte(0)
+		if typ == 6 {
+			fl = 2
+		}
+		raw = []byte{typ<<4 | fl, 2, byte(id >> 8), byte(id)}
+	}
+	orig := append([]byte(nil), raw...)
+	am, _ := message.Type(typ).New()
+	if _, err := am.Decode(raw); err != nil {
+		vrtAssert("C13.harness_decode", false)
+	}
+	return am, orig
+}
+
+func vrtCollect(aq *Ackqueue, abs []vrtEnt) []vrtEnt {
+	n := vrtPrefix(abs)
+	done := aq.Acked()
+	vrtAssert("C13.released_prefix_length", len(done) == n)
+	for i := 0; i < n && i < len(done); i++ {
+		ok := vrtAnd(done[i].Pktid == abs[i].id, vrtAnd(byte(done[i].Mtype) == abs[i].typ, byte(done[i].State) == abs[i].state))
+		vrtAssert("C13.released_in_order", ok)
+		vrtAssert("C13.released_request_bytes", vrtBytesEq(done[i].Msgbuf, abs[i].msg))
+		vrtAssert("C13.released_ack_bytes", vrtBytesEq(done[i].Ackbuf, abs[i].ack))
+	}
+	if n > 0 {
+		vrtReach("C13.released_some")
+	}
+	return abs[n:]
+}
+
+func H13p_history() {
+	aq := newAckqueue(2)
+	var abs []vrtEnt
+	K := vrtBound("N13pops", 3)
+	ackTypes := []byte{4, 5, 7} // (9 and 11 are used by the drain; 6 is covered by the step lemma H13_ack)
+	if vrtChoice("prelude", 2) == 1 {
+		// a concrete prelude leaves the head at the second slot of the ring with one request in flight, so
+		// that two more registrations fill the ring across its end and the third grows it while wrapped
+		m1, _ := vrtRequest(0, 0x0101)
+		vrtAssert("C13.wait_ok", aq.Wait(m1, nil) == nil)
+		a1, _ := vrtAckFor(4, 0x0101)
+		vrtAssert("C13.ack_ok", aq.Ack(a1) == nil)
+		vrtAssert("C13.released_prefix_length", len(aq.Acked()) == 1)
+		m2, t2 := vrtRequest(1, 0x0102)
+		w2 := vrtWire(m2)
+		vrtAssert("C13.wait_ok", aq.Wait(m2, nil) == nil)
+		abs = append(abs, vrtEnt{id: 0x0102, typ: t2, msg: w2})
+	}
+	for k := 0; k < K; k++ {
+		switch vrtChoice("op", 3) {
+		case 0:
+			id := vrtUint16("id")
+			vrtAssume(id != 0)
+			kind := vrtChoice("kind", 3)
+			m, typ := vrtRequest(kind, id)
+			wire := vrtWire(m)
+			raw := append([]byte(nil), wire...)
+			dm, _ := message.Type(typ).New()
+			if _, err := dm.Decode(raw); err != nil {
+				vrtAssert("C13.harness_decode", false)
+				return
+			}
+			vrtAssert("C13.wait_ok", aq.Wait(dm, nil) == nil)
+			for i := range raw {
+				raw[i] = 0xEE // the network buffer is reused
+			}
+			if vrtFind(abs, id) < 0 {
+				abs = append(abs, vrtEnt{id: id, typ: typ, msg: wire})
+				if len(abs) > 2 {
+					vrtReach("C13.grown")
+					if len(abs) == 3 && abs[0].id == 0x0102 {
+						vrtReach("C13.grown_while_wrapped")
+					}
+				}
+			}
+		case 1:
+			id := vrtUint16("ackid")
+			typ := ackTypes[vrtChoice("acktype", len(ackTypes))]
+			am, orig := vrtAckFor(typ, id)
+			vrtAssert("C13.ack_ok", aq.Ack(am) == nil)
+			if i := vrtFind(abs, id); i >= 0 {
+				abs[i].state, abs[i].ack = typ, orig
+			}
+		case 2:
+			abs = vrtCollect(aq, abs)
+		}
+	}
+	// drain: final acknowledgements in reverse order of registration; nothing may come out before the head is done
+	for i := len(abs) - 1; i >= 0; i-- {
+		typ := byte(4)
+		switch {
+		case abs[i].typ == 8:
+			typ = 9
+		case abs[i].typ == 10:
+			typ = 11
+		case len(abs[i].msg) > 0 && abs[i].msg[0]&6 == 4:
+			typ = 7
+		}
+		am, orig := vrtAckFor(typ, abs[i].id)
+		vrtAssert("C13.ack_ok", aq.Ack(am) == nil)
+		abs[i].state, abs[i].ack = typ, orig
+		if i > 0 && !vrtTerminal(abs[0].state) {
+			vrtAssert("C13.nothing_released_before_the_head", len(aq.Acked()) == 0)
+		}
+	}
+	abs = vrtCollect(aq, abs)
+	vrtAssert("C13.drained", len(abs) == 0)
+	vrtAssert("C13.released_once", len(aq.Acked()) == 0)
+	vrtReach("C13.history_public")
+}
